@@ -40,8 +40,9 @@ Proof. vm_compute. reflexivity. Qed.
 (* "x\n\t\n  \n\ny": both blank; ls = 4, p = 6, q = 1, q' = 7 *)
 Example ex_both : format_block [X; NL; TAB; NL; SP; SP; NL; NL; Y] 6 = Ok (2, 7).
 Proof. vm_compute. reflexivity. Qed.
-(* "  \ny": start of the file, p = 2: the indentation stays, the line break goes (KF1) *)
-Example ex_file_start : format_block [SP; SP; NL; Y] 2 = Ok (2, 3).
+(* "  \ny": start of the file, p = 2: the indentation and the line break go (before the repair of
+   known finding KF1 the indentation stayed: (2, 3)) *)
+Example ex_file_start : format_block [SP; SP; NL; Y] 2 = Ok (0, 3).
 Proof. vm_compute. reflexivity. Qed.
 (* "x\n  \n  " : the text ends with blanks but no line break: the next line does not count as blank *)
 Example ex_next_unterminated : format_block [X; NL; SP; SP; NL; SP; SP] 4 = Ok (2, 5).
@@ -349,18 +350,19 @@ Proof.
   destruct (negb _); reflexivity.
 Qed.
 
-(** [format_block] in terms of the results of [indent_remover], [two_prev] and [two_next]. *)
-Lemma format_block_nl s p a : is_boundary s p = true -> nth_error s p = Some NL ->
+(** The hull of the four seam ranges in terms of the results of [indent_remover], [two_prev] and
+    [two_next]. *)
+Lemma seam_hull_of_nl s p a : is_boundary s p = true -> nth_error s p = Some NL ->
   residue_is_blank s p = true ->
   indent_remover s p = Ok (a, p) -> a <= p ->
-  format_block s p =
+  seam_hull_of s p =
   Ok (match two_prev s p with Some q => Nat.min (q + 1) a | None => a end,
       match two_next s p with
       | Some q' => Nat.max q' p
       | None => match two_prev s p with Some _ => p | None => p + 1 end
       end).
 Proof.
-  intros Hb Np Hr HI Ha. unfold format_block, seam_formatters. cbn [foldM].
+  intros Hb Np Hr HI Ha. unfold seam_hull_of, seam_formatters. cbn [foldM].
   rewrite HI. cbn [bind fst snd].
   rewrite (empty_line_remover_nl s p Hb Np Hr).
   unfold prev_line_break_remover, next_line_break_remover. rewrite Hb, Hr. cbn [negb].
@@ -390,18 +392,24 @@ Proof.
   pose proof (nth_error_lt s p NL Np) as Lp.
   assert (residue_is_blank s p = true) as Hr
     by (apply (residue_is_blank_true s ls p H2); [lia | exact Hbl | right; exact Nl]).
-  pose proof (format_block_nl s p ls Hb Np Hr (indent_remover_seam s ls p Hb Hseam) H2) as FB.
+  pose proof (seam_hull_of_nl s p ls Hb Np Hr (indent_remover_seam s ls p Hb Hseam) H2) as FB.
+  (* the hull starts behind a line break (at [ls - 1], or at [q]), so the first-line branch of
+     [format_block] is not taken *)
+  assert (all_blank_before s ls = false) as ABl
+    by (apply (all_blank_before_after_NL s ls (ls - 1)); [lia | exact Nl]).
+  assert (forall q, prev_line_blank s ls q -> all_blank_before s (q + 1) = false) as ABq
+    by (intros q (_ & Nq & _); apply (all_blank_before_after_NL s (q + 1) q); [lia | exact Nq]).
   split; [|split; [|split]].
-  - intros Hp Hn. rewrite FB.
+  - intros Hp Hn. apply (format_block_hull_not_first s p ls (p + 1)); [|exact ABl]. rewrite FB.
     rewrite (two_prev_not_blank s ls p Hs Hseam Hp), (two_next_not_blank s p Hs Np Hb Hn).
     reflexivity.
-  - intros q Hp Hn. rewrite FB.
+  - intros q Hp Hn. apply (format_block_hull_not_first s p (q + 1) p); [|exact (ABq q Hp)]. rewrite FB.
     rewrite (two_prev_blank s ls p q Hseam Hp), (two_next_not_blank s p Hs Np Hb Hn).
     destruct Hp as (Q1 & _). f_equal. f_equal. lia.
-  - intros q' Hp Hn. rewrite FB.
+  - intros q' Hp Hn. apply (format_block_hull_not_first s p ls q'); [|exact ABl]. rewrite FB.
     rewrite (two_prev_not_blank s ls p Hs Hseam Hp), (two_next_blank s p q' Np Hn).
     destruct Hn as (Q1 & _). f_equal. f_equal. lia.
-  - intros q q' Hp Hn. rewrite FB.
+  - intros q q' Hp Hn. apply (format_block_hull_not_first s p (q + 1) q'); [|exact (ABq q Hp)]. rewrite FB.
     rewrite (two_prev_blank s ls p q Hseam Hp), (two_next_blank s p q' Np Hn).
     destruct Hp as (P1 & _). destruct Hn as (Q1 & _). f_equal. f_equal; lia.
 Qed.
@@ -548,7 +556,8 @@ Theorem seam_after_code_untouched : forall s p i b,
   format_block s p = Ok (p, p).
 Proof.
   intros s p i b Hs Hb _ Hi Ni Bb Hne Hbl.
-  unfold format_block, seam_formatters. cbn [foldM].
+  apply format_block_hull_no_lb.
+  unfold seam_hull_of, seam_formatters. cbn [foldM].
   rewrite (indent_remover_no_indent s p (indent_loop_after_code s p i b Hs Hi Ni Bb Hne Hbl)).
   cbn [bind fst snd].
   rewrite (empty_line_remover_after_code s p i b Hb Hi Ni Bb Hne Hbl).
@@ -592,15 +601,16 @@ Proof. vm_compute. reflexivity. Qed.
 Example ex_after_code_inline : format_block [X; Y; SP; SP; Y] 3 = Ok (3, 3).
 Proof. vm_compute. reflexivity. Qed.
 
-(* known finding KF1, stated as a theorem about the model: at the start of the file the indentation
-   residue is NOT removed although the line break is (neither neighbour blank) *)
-Theorem seam_at_file_start : forall s p,
-  wf_utf8 s = true -> nth_error s p = Some NL -> is_boundary s p = true -> 1 <= p ->
+(* the repair of known finding KF1, stated as a theorem about the model: at the start of the file
+   (only blanks in front of the seam) the indentation residue is removed together with the line break.
+   Before the repair the result was (p, p + 1): the residue stayed in front of the next line. *)
+Lemma seam_hull_of_file_start s p : wf_utf8 s = true -> nth_error s p = Some NL ->
+  is_boundary s p = true ->
   (forall i b, i < p -> nth_error s i = Some b -> is_blank b = true) ->
-  next_line_not_blank s p ->
-  format_block s p = Ok (p, p + 1).
+  seam_hull_of s p =
+  Ok (p, match two_next s p with Some q' => Nat.max q' p | None => p + 1 end).
 Proof.
-  intros s p Hs Np Hb H1 Hbl Hn. pose proof (nth_error_lt s p NL Np) as Lp.
+  intros Hs Np Hb Hbl. pose proof (nth_error_lt s p NL Np) as Lp.
   assert (indent_remover s p = Ok (p, p)) as HI.
   { unfold indent_remover. rewrite Hb, Np.
     destruct (Nat.leb_spec (length s) p) as [L|_]; [lia|].
@@ -609,16 +619,50 @@ Proof.
   assert (residue_is_blank s p = true) as Hr.
   { apply (residue_is_blank_true s 0 p); [lia | lia | | left; reflexivity].
     intros i b _ Hi Hnb. apply (Hbl i b Hi Hnb). }
-  rewrite (format_block_nl s p p Hb Np Hr HI (le_n p)).
+  rewrite (seam_hull_of_nl s p p Hb Np Hr HI (le_n p)).
   assert (two_prev s p = None) as ->
     by (unfold two_prev; rewrite (find_prev_lb_blank_none s true p Hbl); reflexivity).
+  reflexivity.
+Qed.
+
+Theorem seam_at_file_start_fixed : forall s p,
+  wf_utf8 s = true -> nth_error s p = Some NL -> is_boundary s p = true -> 1 <= p ->
+  (forall i b, i < p -> nth_error s i = Some b -> is_blank b = true) ->
+  next_line_not_blank s p ->
+  format_block s p = Ok (0, p + 1).
+Proof.
+  intros s p Hs Np Hb H1 Hbl Hn.
+  apply (format_block_hull_first s p p (p + 1)); [|lia | apply all_blank_before_intro; exact Hbl].
+  rewrite (seam_hull_of_file_start s p Hs Np Hb Hbl).
   rewrite (two_next_not_blank s p Hs Np Hb Hn). reflexivity.
 Qed.
+
+(* the companion for a blank next line: the blanks of the first line, the line break and the content
+   of the next line go (its line break stays) *)
+Theorem seam_at_file_start_next_blank : forall s p q',
+  wf_utf8 s = true -> nth_error s p = Some NL -> is_boundary s p = true ->
+  (forall i b, i < p -> nth_error s i = Some b -> is_blank b = true) ->
+  next_line_blank s p q' ->
+  format_block s p = Ok (0, q').
+Proof.
+  intros s p q' Hs Np Hb Hbl Hn. pose proof Hn as (Q1 & _).
+  apply (format_block_hull_first s p p q'); [|lia | apply all_blank_before_intro; exact Hbl].
+  rewrite (seam_hull_of_file_start s p Hs Np Hb Hbl).
+  rewrite (two_next_blank s p q' Np Hn). f_equal. f_equal. lia.
+Qed.
+
+(* "\ny", p = 0: an empty first line; nothing stands in front of the seam *)
+Example ex_file_start_empty : format_block [NL; Y] 0 = Ok (0, 1).
+Proof. vm_compute. reflexivity. Qed.
+(* "  \n \ny", p = 2: first line, the next line blank *)
+Example ex_file_start_next_blank : format_block [SP; SP; NL; SP; NL; Y] 2 = Ok (0, 4).
+Proof. vm_compute. reflexivity. Qed.
 
 (* ------------------------------------------------------------------------- *)
 Print Assumptions seam_hull.
 Print Assumptions seam_not_at_line_break.
-Print Assumptions seam_at_file_start.
+Print Assumptions seam_at_file_start_fixed.
+Print Assumptions seam_at_file_start_next_blank.
 Print Assumptions residue_is_blank_true.
 Print Assumptions residue_is_blank_false.
 Print Assumptions seam_after_code_keeps_line_break.
